@@ -55,6 +55,11 @@ where
     let did = h.last();
     h.expect(matches!(&dd, Out::Ok(v) if *v == pb), "C03.roundtrip", "proof does not survive from_bytes(to_bytes)", &[gid, did]);
     let p2 = Pok::<CS>::from_bytes(&pb).ok()?;
+    // the JSON encoding of the proof object round-trips as well (all shapes, incl. U = 0)
+    {
+        let back: Option<Pok<CS>> = serde_json::to_string(&p2).ok().and_then(|t| serde_json::from_str(&t).ok());
+        h.expect(back.as_ref().map(|b| b.to_bytes()) == Some(pb.clone()), "C03.json_roundtrip", &format!("proof (U = {}) does not survive its JSON encoding", u), &[gid]);
+    }
     let dm = pick_msgs(msgs, &d);
     let v = proofverify::<CS>(h, pk, &p2, hdr, ph, Some(&dm), Some(&d));
     let vid = h.last();
@@ -690,6 +695,36 @@ where
                     let v = blindproofverify::<CS>(h, &pk, &p, hdr.as_deref(), ph.as_deref(), Some(l), Some(&dm), None, Some(&d), None);
                     h.expect(!v.is_ok(), "C04.unsigned_blind", &format!("a challenge-consistent blind proof made without a signature of the issuer ({}) was accepted", nm), &[gid, h.last()]);
                 }
+            }
+        }
+        // messages and indexes that do not pair up: one of the two absent, or claimed messages on a proof that
+        // discloses nothing
+        if let Ok(pp) = Pok::<CS>::from_bytes(&pb) {
+            let claim = vec![b"claimed, never signed".to_vec()];
+            let combos: Vec<(&str, Option<&[Vec<u8>]>, Option<&[usize]>)> = vec![
+                ("msgs_without_indexes", Some(&dm), None),
+                ("indexes_without_msgs", None, Some(&d)),
+                ("claimed_msgs_without_indexes", Some(&claim), None),
+            ];
+            for (nm, a, ia) in combos {
+                if nm != "claimed_msgs_without_indexes" && d.is_empty() { continue; }
+                let v = proofverify::<CS>(h, &pk, &pp, hdr.as_deref(), ph.as_deref(), a, ia);
+                h.stat(&format!("C04.option_mismatch.{}", nm));
+                h.expect(!v.is_ok(), "C04.option_mismatch", &format!("proof_verify accepted {}", nm), &[h.last()]);
+            }
+        }
+        {
+            // a proof that discloses NOTHING, verified with claimed messages but no indexes (plain and blind)
+            let tape = rand_tape(h, 5 + l);
+            let (p0, _) = proofgen::<CS>(h, &pk, &s, hdr.as_deref(), ph.as_deref(), Some(&msgs), Some(&[]), tape);
+            if let Some(p0) = p0.ok() {
+                let claim = vec![b"claimed, never signed".to_vec()];
+                let v = proofverify::<CS>(h, &pk, &p0, hdr.as_deref(), ph.as_deref(), Some(&claim), None);
+                h.expect(!v.is_ok(), "C04.option_mismatch", "proof_verify accepted claimed messages without indexes on a proof that discloses nothing", &[h.last()]);
+                let v = proofverify::<CS>(h, &pk, &p0, hdr.as_deref(), ph.as_deref(), Some(&claim), Some(&[]));
+                h.expect(!v.is_ok(), "C04.option_mismatch", "proof_verify accepted claimed messages with an empty index list", &[h.last()]);
+                let v = proofverify::<CS>(h, &pk, &p0, hdr.as_deref(), ph.as_deref(), None, None);
+                h.expect(v.is_ok(), "C03.verify_none", "a proof that discloses nothing does not verify with absent lists", &[h.last()]);
             }
         }
         let mut h1 = hdr.clone().unwrap_or_default();
